@@ -6,7 +6,9 @@ Bits (`circuit_builder.rs::decompose_to_bits`, `reconstruct_index_from_bits`, si
   * the circuit relation on the hinted slots is: one `BoolCheck` row per bit
     (`b * (b - 1) = 0`), the `mul_add` chain `acc := b_j * 2^j + acc` from `acc = 0`, and
     `connect(x, acc)` (the last `out` *is* the slot of `x`).
-  `bitsAccept x bits` is exactly that relation, for arbitrary slot contents `bits`.
+  `bitsAccept x bits` is exactly that relation, for arbitrary slot contents `bits`;
+  * since the canonicity repair a full-width limb (`n = BF::bits()`, so `2^n > p`) is also
+    compared with the bits of `p` (`assert_bits_below_modulus`): `bitsAcceptFixed`.
 
 Coefficients (`decompose_ext_to_base_coeffs`, `recompose_base_coeffs_to_ext*`), extension
 elements as limb functions `Nat → K` read on `j < D`, binomial basis `X^D = W`:
@@ -41,8 +43,33 @@ def reconBits (bits : List K) : K := reconGo bits 1 0
 /-- The `BoolCheck` row relation. -/
 def boolOk (b : K) : Bool := b * (b - 1) == 0
 
-/-- Relation the circuit imposes on the hinted bit slots of `decompose_to_bits(x, n)`. -/
+/-- Boolean checks + recomposition identity only: the relation `decompose_to_bits(x, n)`
+imposed *before* the canonicity repair (fixes/C12-1.diff), and still the whole relation for
+limbs shorter than `BF::bits()`. -/
 def bitsAccept (x : K) (bits : List K) : Bool := bits.all boolOk && reconBits bits == x
+
+/-- `assert_bits_below_modulus` (fixes/C12-1.diff): lexicographic comparison with the bits of
+`p`, most significant bit first. The list is MSB-first, the head has index `rest.length`.
+`eq`: all higher bits equal those of `p`; `lt`: some higher bit of `p` is 1 where the slot
+holds 0 with everything above equal. -/
+def ltGo (p : Nat) : List K → K → K → K
+  | [], _, lt => lt
+  | b :: rest, eq, lt =>
+    if (p >>> rest.length) % 2 = 1 then ltGo p rest (eq * b) (lt + eq * (1 - b))
+    else ltGo p rest (eq * (1 - b)) lt
+
+/-- `connect(lt, one)` at the end of `assert_bits_below_modulus`. -/
+def belowModulus (p : Nat) (bits : List K) : Bool := ltGo p bits.reverse 1 0 == 1
+
+/-- Relation the patched circuit imposes on the hinted bit slots of `decompose_to_bits(x, n)`
+(single limb, `n ≤ w = BF::bits()`): boolean checks, recomposition identity, and for a
+full-width limb the comparison with the modulus. -/
+def bitsAcceptFixed (p w : Nat) (x : K) (bits : List K) : Bool :=
+  bitsAccept x bits && (bits.length != w || belowModulus p bits)
+
+/-- What the runner of the patched circuit checks (it does not test booleanity). -/
+def bitsRunOkFixed (p w : Nat) (x : K) (bits : List K) : Bool :=
+  reconBits bits == x && (bits.length != w || belowModulus p bits)
 
 end
 
